@@ -28,7 +28,23 @@ def _grid_case(region, shape, spacing, adjust, pixel, extra, mesh, kind):
     sp = None if spacing is None else list(np.atleast_1d(spacing))
     return {"kind": kind, "fn": "grid", "args": [list(region), shape, spacing, adjust, pixel, extra, mesh],
             "op": f"grid {C.enc(list(region))} {C.enc(None if shape is None else list(shape))} {C.enc(sp)} {adjust} "
-                  f"{C.enc(bool(pixel))} {C.enc(list(extra) if extra is not None else [])} {C.enc(bool(mesh))}"}
+                  f"{C.enc(bool(pixel))} {C.enc(_exlist(extra))} {C.enc(bool(mesh))}"}
+
+
+def _exlist(extra):
+    """extra_coords as the list of values it stands for (None -> none, a bare scalar -> one value, incl. 0)."""
+    if extra is None:
+        return []
+    return [float(v) for v in extra] if isinstance(extra, (list, tuple)) else [float(extra)]
+
+
+def _rand_extra(rng):
+    u = rng.random()
+    if u < 0.55:
+        return None
+    if u < 0.7:
+        return rng.choice([0.0, 0, -0.0, 35.0, -2.5, [0.0], [0, 0.0], 1e-300])      # bare scalars, zeros included
+    return [G.number(rng) if rng.random() < 0.8 else 0.0 for _ in range(rng.randint(1, 3))]
 
 
 def corpus():
@@ -102,7 +118,7 @@ def generate(rng, tier):
             reg = G.region(rng, degenerate_ok=True)
             adjust = rng.choice(["spacing", "region"])
             pixel = rng.random() < 0.5
-            extra = None if rng.random() < 0.6 else [G.number(rng) for _ in range(rng.randint(1, 3))]
+            extra = _rand_extra(rng)
             mesh = rng.random() < 0.8
             if rng.random() < 0.5:
                 shape = (rng.randint(1, 7), rng.randint(1, 7))
@@ -124,7 +140,7 @@ def generate(rng, tier):
             p1 = (G.number(rng), G.number(rng))
             p2 = (G.number(rng), G.number(rng))
             size = rng.choice([1, 2, 3, 5, 8, 0, -1]) if rng.random() < 0.3 else rng.randint(1, 12)
-            cs.append({"kind": "profile", "fn": "profile", "args": [p1, p2, size],
+            cs.append({"kind": "profile", "fn": "profile", "args": [p1, p2, size, _rand_extra(rng)],
                        "op": f"profile {C.enc(list(p1))} {C.enc(list(p2))} {size}"})
         else:
             start, stop = 0.0, G.positive(rng)
@@ -152,10 +168,17 @@ def impl(case):
         r = C.call(vd.coordinates.shape_to_spacing, a[0], a[1], pixel_register=a[2])
         return r if C.is_err(r) else [float(v) for v in r]
     if fn == "profile":
-        r = C.call(vd.profile_coordinates, a[0], a[1], a[2])
+        extra = a[3] if len(a) > 3 else None
+        r = C.call(vd.profile_coordinates, a[0], a[1], a[2], **({} if extra is None else {"extra_coords": extra}))
         if C.is_err(r):
             return r
-        (x, y), d = r
+        (x, y, *ex), d = r
+        want = _exlist(extra)
+        if len(ex) != len(want):
+            return ["err", f"ExtraCoordinates:{len(ex)}-arrays-for-{len(want)}-values"]
+        for arr, v in zip(ex, want):
+            if np.shape(arr) != np.shape(x) or np.any(np.asarray(arr) != v):
+                return ["err", "ExtraCoordinateNotConstantOfProfileShape"]
         return [[float(i), float(j), float(k)] for i, j, k in zip(x, y, d)]
     raise C.Infra("unknown fn " + fn)
 
@@ -307,7 +330,7 @@ def oracle(case, io):
             if _shape(N) != [nn, ne]:
                 return "easting/northing shapes differ"
             east, north = E[0], [row[0] for row in N]
-            ex = extra or []
+            ex = _exlist(extra)
             if len(io) != 2 + len(ex):
                 return "wrong number of extra coordinate arrays"
             for k, v in enumerate(ex):
@@ -338,7 +361,7 @@ def oracle(case, io):
             return f"shape_to_spacing does not invert the shape: got {g[0].shape} for {shape}"
         return None
     if fn == "profile":
-        p1, p2, size = a
+        p1, p2, size = a[:3]
         if size <= 0:
             return None if C.is_err(io) and io[1] == "ValueError" else "size <= 0 not rejected"
         if C.is_err(io):
